@@ -298,4 +298,26 @@ def decWf : Dec → Bool
   | .bit f => fieldWf f
   | _ => true
 
+/-! ## The manifest entry's "schema / file type / file format" word, as the standard words it -/
+
+/-- file type = bits 2:0: 0 = device XML, 1 = buffer XML, every other code is reserved -/
+def fileTypeStd (raw : Nat) : Res Err String :=
+  match bitsOf raw 2 0 with
+  | 0 => .ok "DeviceXml"
+  | 1 => .ok "BufferXml"
+  | _ => .err .invalidDevice
+
+/-- file format = bits 15:10: 0 = uncompressed, 1 = zip, every other code is reserved -/
+def compressionStd (raw : Nat) : Res Err String :=
+  match bitsOf raw 15 10 with
+  | 0 => .ok "Uncompressed"
+  | 1 => .ok "Zip"
+  | _ => .err .invalidDevice
+
+/-- schema version = (major: bits 31:24, minor: bits 23:16) -/
+def schemaStd (raw : Nat) : Nat × Nat := (bitsOf raw 31 24, bitsOf raw 23 16)
+
+/-- the "Device Configuration" mutators: `set_bit` sets, `unset_bit` clears -/
+def opSets (kind : String) : Bool := kind == "set_bit"
+
 end CamVerif.Spec.U3V
